@@ -116,7 +116,12 @@ func ruleC08(c *Ctx, r *Report) {
 		} else {
 			r.Check(whole == "yes", "C08-R4", construct, c.InstrPos(i), wd, wd)
 		}
+		// R9 a write that fails half-way leaves no torn line behind
+		ok9, d9 := failedWriteRollback(c, call)
+		r.Check(ok9, "C08-R9", fmt.Sprintf("%s:failed-write-rollback(%s)", sf.Name(), k), c.InstrPos(i), d9,
+			"a write that fails after part of the line was transferred (ENOSPC, EFBIG, quota) leaves a torn line at the end of the output file: "+d9)
 	})
+	r.Floor("C08-R9", 1, "one record write whose failure branch rolls a partial line back")
 	r.Analysed["writes_to_output"] = nWrites
 
 	// R2: scanner.Err() inspected; every nil-error return of the stream function is
@@ -554,4 +559,63 @@ func gzipVerifiedRule(c *Ctx, r *Report, sf *ssa.Function, rule string) {
 	if n == 0 {
 		r.Trivial(rule, "no-gzip-streaming", "-", "no gzip reader is handed to the scan loop")
 	}
+}
+
+// failedWriteRollback: on the err != nil branch of the record write a call that reaches
+// (*os.File).Truncate receives a value computed from the write's byte count - the partial
+// line is cut off again where the output is a file. (A pipe cannot be rolled back; its reader
+// is gone when a write to it fails.)
+func failedWriteRollback(c *Ctx, call *ssa.Call) (bool, string) {
+	n := extractOf(call, 0)
+	if n == nil {
+		return false, "the byte count of the write is discarded, so a partial line cannot be rolled back"
+	}
+	var region []*ssa.BasicBlock
+	for _, ev := range errorResults(call) {
+		for _, t := range errTestsOf(ev) {
+			if t.NonNilSucc == nil {
+				continue
+			}
+			for _, b := range call.Parent().Blocks {
+				if t.NonNilSucc.Dominates(b) {
+					region = append(region, b)
+				}
+			}
+		}
+	}
+	if len(region) == 0 {
+		return false, "no err != nil branch after the write"
+	}
+	truncates := func(f *ssa.Function) bool {
+		for g := range c.pkgReach(f) {
+			if hasCallTo(g, "(*os.File).Truncate") {
+				return true
+			}
+		}
+		return false
+	}
+	for _, b := range region {
+		for _, in := range b.Instrs {
+			cc, ok := in.(*ssa.Call)
+			if !ok {
+				continue
+			}
+			dep := false
+			for _, a := range cc.Call.Args {
+				if valueDependsOn(a, n, 0) {
+					dep = true
+				}
+			}
+			if !dep {
+				continue
+			}
+			if calleeKey(&cc.Call) == "(*os.File).Truncate" {
+				return true, "the failure branch truncates the file by the bytes of the partial line"
+			}
+			if g := c.staticPkgCallee(&cc.Call); g != nil && truncates(g) {
+				return true, "the failure branch calls " + g.Name() + "(…, n), which reaches (*os.File).Truncate"
+			}
+		}
+	}
+	return false, "the failure branch does not cut the partial line off again (no call reaching (*os.File).Truncate with the write's byte count)"
 }
